@@ -60,6 +60,7 @@ def run(pid, tier, seed, replay=None):
             ck.mc(DIR, "NetSimplex", "NC_ns.cfg", expect_violation="Bounds", timeout=3000)
         nq = 300 if tier == "quick" else 5000
         c1 = [drv.gen_mincost(rng, nmax=4 if i % 3 == 0 else 8) for i in range(nq)]
+        c1 += [drv.gen_mincost_longroute(rng) for _ in range(nq // 2)]
         c2 = [drv.gen_mincost(rng, general=True) for _ in range(nq)]
         c3 = [drv.gen_assign(rng) for _ in range(nq // 2)]
         trs = (_fix(run_tasks("flow", "run_mincost", c1 + c2, timeout=4), c1 + c2, "mincost")
@@ -144,8 +145,9 @@ def run(pid, tier, seed, replay=None):
         ck.assumptions = ["source != sink"]
     else:
         ck.rule = ("random networks with 2-8 nodes, <= 14 arcs, zero-capacity arcs, parallel / anti-parallel arcs with equal and different "
-                   "costs, negative costs on forward arcs only (no negative cycles); single source/sink with demand 0-6 (both solvers when "
-                   "no parallel arcs) and general balanced supply vectors (network_simplex); assignment matrices up to 5x5")
-        ck.assumptions = ["network_simplex is only queried without parallel arcs (its result dict is keyed by node pair)",
-                          "no negative-cost cycles in the input"]
+                   "costs, negative costs on forward arcs only (no negative cycles); single source/sink with demand 0-6 (both solvers) "
+                   "and general balanced supply vectors (network_simplex); long cheap routes with costlier shortcuts; assignment matrices up to 5x5; "
+                   "step level: pivot sequences of network_simplex replayed against NetSimplex")
+        ck.assumptions = ["no negative-cost cycles in the input",
+                          "flows are compared per node pair (both solvers report the combined flow of parallel arcs)"]
     return ck.finish()
